@@ -27,7 +27,7 @@ func init() {
 		Title: "Router dispatches to a longest matching route, else the default",
 		Rule: "1-3 tasks x 1-4 operations {Handle, HandleRemove, DefaultHandle, ServeCOAP} on one router with two middlewares; patterns from literals (incl. regexp metacharacters), {var}, {var:regex} and a trailing greedy variable; paths of 0-3 segments; cooperative scheduling with a park point between the router's two read-locked sections; " +
 			"non-trivial = a dispatch overlapped a registration/removal, or at least two registered patterns matched the path; distinct = distinct event-log hash (route sets and paths are sampled, not enumerated)",
-		Scenarios: []Scenario{{Name: "M-ROUTER", Weight: 1, Run: c17Run}},
+		Scenarios: []Scenario{{Name: "M-ROUTER", Weight: 4, Run: c17Run}, {Name: "S-ROUTE/wire", Weight: 1, Run: c17WireRun}},
 		Quick:     300000,
 		Thorough:  20000000,
 		Require:   []string{"dispatch.overlapsAnotherOperation", "path.matchedSeveralPatterns"},
